@@ -18,8 +18,8 @@ class Harness:
     name = 'K8.collect_garbage'
     mode = 'U'
 
-    def __init__(self, N=4, L=2, roots=0, nondet=True):
-        self.N, self.L, self.roots, self.nondet = N, L, roots, nondet
+    def __init__(self, N=4, L=2, roots=0, nondet=True, ce=1):
+        self.N, self.L, self.roots, self.nondet, self.ce = N, L, roots, nondet, ce
 
     def install(self):
         self.B = base.import_dd('dd.bdd')
@@ -32,7 +32,7 @@ class Harness:
     def run(self):
         c = engine.CTX
         N, L = self.N, self.L
-        m = SymMgr(N, 0, L, with_cache=True)
+        m = SymMgr(N, 0, L, with_cache=True, cache_model='assoc', cache_entries=self.ce)
         m.assume_pre()
         bdd = m.install(self.B)
         st0, st, ext = m.st0, m.st, m.ext
